@@ -12,7 +12,7 @@ package majority
 //@ pred mjAccepts(l model.BiasListener, x model.MethodParameters, id string) = typeis(x, model.WeightType) && id in x.(model.WeightType).Weights
 
 //@ func (*MajorityBiasListener).OnCriteriaRemoved
-//@   property C07 C15 C11 C01
+//@   property C07 C15 C11 C01 C09 C20
 //@   refines model.BiasListener.OnCriteriaRemoved with validParams=mjValid, coversId=mjCovers
 //@   ensures [rest_kept] result.(MajorityHeuristicParams).CurrentChoice == params.(MajorityHeuristicParams).CurrentChoice
 //@             && result.(MajorityHeuristicParams).RandomSeed == params.(MajorityHeuristicParams).RandomSeed
@@ -23,13 +23,13 @@ package majority
 //@   ensures [no_weight_left_for_an_omitted_criterion] forall q string :: q in result.(MajorityHeuristicParams).Weights ==> exists k int :: 0 <= k && k < len(*leftCriteria) && (*leftCriteria)[k].Id == q
 
 //@ func (*MajorityBiasListener).OnCriterionAdded
-//@   property C07 C18 C11 C01
+//@   property C07 C18 C11 C01 C09 C19 C20
 //@   fnparam generator ensures 0.0 <= result && result < 1.0
 //@   refines model.BiasListener.OnCriterionAdded with validParams=mjValid, coversId=mjCovers, accepts=mjAccepts, acceptsAny=mjAcceptsAny
 //@   ensures [weight_is_fraction_of_reference] model.fractionOf(result.(model.WeightType).Weights[criterion.Id], params.(MajorityHeuristicParams).Weights[referenceCriterion.Id])
 
 //@ func (*MajorityBiasListener).Merge
-//@   property C07 C18 C11 C01
+//@   property C07 C18 C11 C01 C09 C19 C20
 //@   refines model.BiasListener.Merge with validParams=mjValid, coversId=mjCovers, accepts=mjAccepts, acceptsAny=mjAcceptsAny
 //@   ensures [rest_kept] result.(MajorityHeuristicParams).CurrentChoice == params.(MajorityHeuristicParams).CurrentChoice
 //@             && result.(MajorityHeuristicParams).RandomSeed == params.(MajorityHeuristicParams).RandomSeed
@@ -37,7 +37,7 @@ package majority
 //@             && result.(MajorityHeuristicParams).DrawResolution == params.(MajorityHeuristicParams).DrawResolution
 
 //@ func (*MajorityBiasListener).RankCriteriaAscending
-//@   property C15 C07 C11 C16 C18 C19
+//@   property C15 C07 C11 C16 C18 C19 C01 C09 C20
 //@   refines model.BiasListener.RankCriteriaAscending with validParams=mjValid, coversId=mjCovers, imp=mjImportance
 //@   ensures [importance_is_weight] forall k int :: 0 <= k && k < len(*result) ==> (*result)[k].Weight == params.MethodParameters.(MajorityHeuristicParams).Weights[(*result)[k].Id]
 
@@ -51,7 +51,7 @@ package majority
 //@      n <= 0 ? 0.0 : score(cs, a, b, n - 1) + (better(a, b, cs[n - 1].Criterion) ? cs[n - 1].Weight : 0.0)
 
 //@ func compare
-//@   property C11 C01 C09
+//@   property C11 C01 C09 C20
 //@   ensures [scores] result0 == score(*criteriaWithWeights, *a1, *a2, len(*criteriaWithWeights)) && result1 == score(*criteriaWithWeights, *a2, *a1, len(*criteriaWithWeights))
 //@   loop 1 invariant [partial] a1Score == score(*criteriaWithWeights, *a1, *a2, iter) && a2Score == score(*criteriaWithWeights, *a2, *a1, iter)
 
@@ -61,14 +61,14 @@ package majority
 //@   && r.Evaluation.(MajorityEvaluation).ComparedWith == opponent && r.Evaluation.(MajorityEvaluation).ComparedAlternativeValue == opponentValue
 
 //@ func (*DrawAllowedResolver).Resolve
-//@   property C11 C01
+//@   property C11 C01 C09 C20
 //@   ensures [joins_the_tie_group] result != nil && len(result.sameBuffer) == len(sameBuffer) + 1
 //@             && (forall k int :: 0 <= k && k < len(sameBuffer) ==> result.sameBuffer[k] == old(sameBuffer[k]))
 //@             && isRecord(result.sameBuffer[len(sameBuffer)], another, newEval, current.Id, currentEval)
 //@   ensures [rest_unchanged] result.worseThanCurrent == worseThanCurrent && result.current == current
 
 //@ func (*CurrentIsWinnerDrawResolver).Resolve
-//@   property C11 C01 C09
+//@   property C11 C01 C09 C20
 //@   ensures [newcomer_drops_out_alone] result != nil && len(result.worseThanCurrent) == len(worseThanCurrent) + 1
 //@             && (forall k int :: 0 <= k && k < len(worseThanCurrent) ==> result.worseThanCurrent[k] == old(worseThanCurrent[k]))
 //@             && len(result.worseThanCurrent[len(worseThanCurrent)]) == 1
@@ -76,7 +76,7 @@ package majority
 //@   ensures [rest_unchanged] result.sameBuffer == sameBuffer && result.current == current
 
 //@ func (*NewerIsWinnerResolver).Resolve
-//@   property C11 C01 C09
+//@   property C11 C01 C09 C20
 //@   ensures [current_group_drops_out] result != nil && len(result.worseThanCurrent) == len(worseThanCurrent) + 1
 //@             && (forall k int :: 0 <= k && k < len(worseThanCurrent) ==> result.worseThanCurrent[k] == old(worseThanCurrent[k]))
 //@             && len(result.worseThanCurrent[len(worseThanCurrent)]) == len(sameBuffer) + 1
@@ -85,7 +85,7 @@ package majority
 //@   ensures [newcomer_takes_over] result.current == another && len(result.sameBuffer) == 0 && fresh(result.sameBuffer)
 
 //@ func (*RandomWinnerResolver).Resolve
-//@   property C11 C01
+//@   property C11 C01 C09 C20
 //@   fnparam generator ensures 0.0 <= result && result < 1.0
 //@   ensures [one_draw_decides] result != nil && (result.current == current || result.current == another) && len(result.worseThanCurrent) == len(worseThanCurrent) + 1
 //@             && (forall k int :: 0 <= k && k < len(worseThanCurrent) ==> result.worseThanCurrent[k] == old(worseThanCurrent[k]))
@@ -103,7 +103,7 @@ package majority
 //@   ensures result == resolved(self, currentEval, newEval, sameBuffer, worseThanCurrent, current, another) && result != nil
 
 //@ func (*Majority).takeBetter
-//@   property C11 C01 C09
+//@   property C11 C01 C09 C20
 //@   fnparam generator ensures 0.0 <= result && result < 1.0
 //@   ensures [equal_scores_are_decided_by_the_configured_policy] abs(s1 - s2) <= 0.000001 ==>
 //@             result0 == resolved(resolver, s1, s2, sameBuffer, worseThanCurrent, current, another).worseThanCurrent
@@ -130,7 +130,7 @@ package majority
 //@ pred linkAfter(e model.AlternativesRankEntry, rk [][]model.AlternativeResult, g int, j int) = e.BetterThanOrSameAs[plen(rk, g) + j - 1] == rk[g][j].Alternative.Id
 
 //@ func prepareRanking
-//@   property C01 C11 C09
+//@   property C01 C11 C09 C20
 //@   ensures [one_entry_each] result != nil && fresh(result) && len(*result) == base(ranking, len(ranking))
 //@   ensures [reverse_drop_out_order] forall g int, i int :: 0 <= g && g < len(ranking) && 0 <= i && i < len(ranking[g]) ==>
 //@             entryOf((*result)[len(*result) - 1 - (base(ranking, g) + i)], ranking, g, i)
@@ -175,19 +175,19 @@ package majority
 //@ ifacemethod DrawResolver.Identifier
 //@   ensures result == drawName(self)
 //@ func (*DrawAllowedResolver).Identifier
-//@   property C11 C20 C01
+//@   property C11 C20 C01 C03 C04 C05 C06 C07 C08 C09 C12 C13 C14 C15 C16 C17 C18 C19
 //@   nopanic
 //@   ensures [name] result == "allow"
 //@ func (*CurrentIsWinnerDrawResolver).Identifier
-//@   property C11 C20 C01
+//@   property C11 C20 C01 C03 C04 C05 C06 C07 C08 C09 C12 C13 C14 C15 C16 C17 C18 C19
 //@   nopanic
 //@   ensures [name] result == "current"
 //@ func (*NewerIsWinnerResolver).Identifier
-//@   property C11 C20 C01
+//@   property C11 C20 C01 C03 C04 C05 C06 C07 C08 C09 C12 C13 C14 C15 C16 C17 C18 C19
 //@   nopanic
 //@   ensures [name] result == "newer"
 //@ func (*RandomWinnerResolver).Identifier
-//@   property C11 C20 C01
+//@   property C11 C20 C01 C03 C04 C05 C06 C07 C08 C09 C12 C13 C14 C15 C16 C17 C18 C19
 //@   nopanic
 //@   ensures [name] result == "random"
 // the policy named in the request; the first registered one when none is named; an unknown name is rejected
@@ -203,12 +203,12 @@ package majority
 //@ spec mjCurrent(p limited_rationality.HeuristicParams) string = p.(*MajorityHeuristicParams).CurrentChoice
 //@ spec mjRandom(p limited_rationality.HeuristicParams) bool = p.(*MajorityHeuristicParams).RandomAlternativesOrdering
 //@ func (*MajorityHeuristicParams).GetCurrentChoice
-//@   property C11 C01 C09
+//@   property C11 C01 C09 C12 C13 C14 C20
 //@   nopanic
 //@   refines limited_rationality.HeuristicParams.GetCurrentChoice with currentChoiceOf=mjCurrent
 //@   ensures result == m.CurrentChoice
 //@ func (*MajorityHeuristicParams).IsRandomAlternativesOrdering
-//@   property C11 C01 C09
+//@   property C11 C01 C09 C12 C13 C14 C20
 //@   nopanic
 //@   refines limited_rationality.HeuristicParams.IsRandomAlternativesOrdering with randomOrderOf=mjRandom
 //@   ensures result == m.RandomAlternativesOrdering
@@ -226,7 +226,7 @@ package majority
 
 // ---- the tournament loop, one step at a time (C11, C01): the running winner meets the next alternative of the search order
 //@ func (*Majority).Evaluate
-//@   property C11 C01 C09
+//@   property C11 C01 C09 C20
 //@   fnparam .generator pure
 //@   requires [parameters] typeis(dm.MethodParameters, MajorityHeuristicParams)
 //@   returnhint [generator_seeded_with_the_requests_seed] generator == appfn(m.generator, params.RandomSeed)
@@ -261,13 +261,13 @@ package majority
 
 // ---- registered names (what a request must say to select this object; what error messages list)
 //@ func (*MajorityBiasListener).Identifier
-//@   property C07 C11 C20
+//@   property C07 C11 C20 C01 C03 C04 C05 C06 C08 C09 C12 C13 C14 C15 C16 C17 C18 C19
 //@   nopanic
 //@   ensures [name] result == "majorityHeuristic"
 
 // ---- registered names (what a request must say to select this object; what error messages list)
 //@ func (*Majority).Identifier
-//@   property C01 C09 C11 C20
+//@   property C01 C09 C11 C20 C03 C04 C05 C06 C07 C08 C12 C13 C14 C15 C16 C17 C18 C19
 //@   nopanic
 //@   ensures [name] result == "majorityHeuristic"
 
